@@ -45,6 +45,16 @@ func closeOut() {
 	}
 }
 
+var processStart = time.Now()
+
+// ageAtLeast waits until the process has been alive for d (deadlines computed once at start-up, idle timers and
+// "recently used" state only show in a process that is not brand new)
+func ageAtLeast(d time.Duration) {
+	if rest := d - time.Since(processStart); rest > 0 {
+		time.Sleep(rest)
+	}
+}
+
 // settle lets the collector and the finalizer goroutine run: two collections and a short pause.  Called before
 // results handed out earlier are inspected again, and by sources between two pieces of a delivery - a library that
 // ties the life of a buffer to an object the caller no longer sees shows up then.
@@ -89,11 +99,26 @@ func gcStorm() (stop func()) {
 // was passed.
 func narrow(x int64) int64 { return int64(int(x)) }
 
+// buildVariant names the build constraints the harness (and with it the library) was compiled under, when they are
+// not the default ones ("purego": the portable implementations that assembly-free and exotic targets get)
+var buildVariant string
+
+// flushEach: every event reaches the file at once (all commands but the bulk generators, which flush at unit boundaries)
+var flushEach bool
+
 func emit(e Event) {
-	if strconv.IntSize == 32 {
+	if strconv.IntSize == 32 || buildVariant != "" {
 		if op, _ := e["op"].(string); op == "Reset" || op == "Cut" {
-			e["arch"] = "386"
+			if strconv.IntSize == 32 {
+				e["arch"] = "386"
+			}
+			if buildVariant != "" {
+				e["build"] = buildVariant
+			}
 		}
+	}
+	if op, _ := e["op"].(string); op == "Cut" {
+		e["age_ms"] = int(time.Since(processStart) / (100 * time.Millisecond) * 100) // (a re-execution waits until it is as old)
 	}
 	b, err := json.Marshal(e)
 	if err != nil {
@@ -103,6 +128,9 @@ func emit(e Event) {
 	defer emitMu.Unlock()
 	outW.Write(b)
 	outW.WriteByte('\n')
+	if flushEach || e["op"] == "Cut" {
+		outW.Flush() // what was observed before a process died must be on disk
+	}
 	nEvents++
 }
 
